@@ -320,6 +320,12 @@ pub fn c08(m: &mut Mon, w: &mut World, _rng: &mut Rng) {
                 fn_of.insert(cid.get_inner().to_string(), t.function_name.clone());
             }
         }
+        // `unused` results are recorded by their value's content id; the service table writes the function into the value
+        for (cid, v) in d.cid_info.value_store.iter() {
+            if let Some(f) = serde_json::from_str::<serde_json::Value>(&v.get_value().to_string()).ok().and_then(|j| j.get("f").and_then(|x| x.as_str()).map(|s| s.to_string())) {
+                fn_of.entry(cid.get_inner().to_string()).or_insert(f);
+            }
+        }
     }
     for (nm, k, t) in results.iter().skip(1) {
         if *k != k0 {
